@@ -427,21 +427,38 @@ Definition get_fixed_prefix (s : str) : str * option N :=
   | [] => fp_loop s []
   end.
 
-Fixpoint zip_all_eq (a b : str) : bool :=
+(* char::to_uppercase on the modelled domain, as a string: ß -> "SS", ŉ -> "ʼN", µ -> U+039C,
+   ı -> "I", ÿ -> U+0178; 1:1 pairs as `upper` *)
+Definition rs_upper (c : N) : str :=
+  if c =? 223 then [83; 83]
+  else if c =? 329 then [700; 78]
+  else if c =? 181 then [924]
+  else if c =? 305 then [73]
+  else [upper c].
+
+(* may_differ_by_case_only's fold(c) = c.to_uppercase().flat_map(char::to_lowercase) *)
+Definition rs_fold (c : N) : str := map lower (rs_upper c).
+
+(* Regex::is_partial_match's per-character test:
+   a == b || (case_insensitive && may_differ_by_case_only(a, b))  (regex.rs, commit 455b1bc);
+   coarser than ceq: e.g. ı (U+0131) and I/i are taken for equal because upper(ı) = I *)
+Definition peq (ci : bool) (a b : N) : bool :=
+  (a =? b) || (ci && ((lower a =? lower b) || str_eqb (rs_upper a) (rs_upper b)
+                      || str_eqb (rs_fold a) (rs_fold b))).
+
+Fixpoint zip_all_peq (ci : bool) (a b : str) : bool :=
   match a, b with
-  | x :: a', y :: b' => (x =? y) && zip_all_eq a' b'
+  | x :: a', y :: b' => peq ci x y && zip_all_peq ci a' b'
   | _, _ => true
   end.
 
-Definition lower_str (ci : bool) (s : str) : str := if ci then map lower s else s.
-
-(* Regex::is_partial_match with fixed_prefix = fst fp (lower-cased at construction when ci),
+(* Regex::is_partial_match with fixed_prefix = fst fp AS WRITTEN (no lower-casing any more),
    fixed_prefix_len = length (fst fp), max_suffix_len = snd fp *)
 Definition partial_match (ci : bool) (fp : str * option N) (s : str) : bool :=
   match snd fp with
   | Some k => if N.of_nat (length (fst fp)) + k <? N.of_nat (length s) then false
-              else zip_all_eq (lower_str ci (fst fp)) (lower_str ci s)
-  | None => zip_all_eq (lower_str ci (fst fp)) (lower_str ci s)
+              else zip_all_peq ci (fst fp) s
+  | None => zip_all_peq ci (fst fp) s
   end.
 
 (* ------------------------------------------------------------------------------------------ *)
